@@ -39,6 +39,12 @@
 (*                      were never delivered                               *)
 (*   silent_refusal     an empty / unparsable query is answered by an      *)
 (*                      empty 200 response                                 *)
+(*   cursor_stuck       `if from.UnixNano() < e.TimestampNS` moves the     *)
+(*                      cursor only past lines NEWER than it: a line whose *)
+(*                      timestamp EQUALS the cursor (newest delivered      *)
+(*                      + 1 ns, or the initial now - 5 min) is delivered   *)
+(*                      and the cursor stays: the line is delivered again  *)
+(*                      on every tick until a newer line arrives           *)
 (* With Dev = {} every property below holds (MC_Tail); a recorded run of   *)
 (* the real code must be a behaviour of Dev = {} (Trace_Tail), otherwise   *)
 (* the smallest Dev that explains it names the defect.                     *)
@@ -61,7 +67,7 @@ CONSTANTS
     MaxStale,   \* writes that may still succeed after the peer dropped the connection (TCP buffering)
     MaxWire     \* frames in flight towards the client (back pressure of the connection)
 
-AllDev == {"spin_on_closed", "err_frame", "row_err_unnoticed", "silent_refusal"}
+AllDev == {"spin_on_closed", "err_frame", "row_err_unnoticed", "silent_refusal", "cursor_stuck"}
 
 VARIABLES
     now,        \* wall clock
@@ -295,7 +301,11 @@ Deliver(to, P) ==
     /\ buf' = OkFrame(Ids(P))
     /\ sent' = sent \cup Ids(P)
     /\ flags' = IF Ids(P) \cap sent # {} THEN flags \cup {"dup_sent"} ELSE flags
-    /\ from' = IF P = {} THEN from ELSE Max(from, MaxOf({l.ts : l \in P}) + 1)
+    /\ from' = IF P = {} THEN from
+               ELSE LET m == MaxOf({l.ts : l \in P}) IN
+                    IF "cursor_stuck" \in Dev
+                      THEN (IF from < m THEN m + 1 ELSE from)     \* as coded: `if from < ts { from = ts + 1 }`
+                      ELSE Max(from, m + 1)
     /\ cls' = [l \in Lines |->
                  IF cls[l] # "none" \/ l \notin Ids(store) THEN cls[l]
                  ELSE IF TsOf(l) < from THEN "old" ELSE IF TsOf(l) < to THEN "due" ELSE "future"]
